@@ -564,8 +564,12 @@ public:
           // Important to assign to a local variable (i.e. make a copy)
           // Else, for tainted_volatile, this will allow a
           // time-of-check-time-of-use attack
+          // Read the pointee through the local copy of the pointer: this
+          // checks that the whole object lies inside the sandbox and converts
+          // it from the sandbox's ABI
+          auto local = tainted<T, T_Sbx>::internal_factory(val);
           auto val_copy = std::make_unique<T_Deref>();
-          *val_copy = *val;
+          *val_copy = (*local).get_raw_value();
           return verifier(std::move(val_copy));
         }
       }
